@@ -247,7 +247,12 @@ func (s *surf3) gen(idx int) *Input {
 	case "deployment-nil-replicas":
 		show["deliverability"] = "apps/v1 defaulting sets spec.replicas=1: only a non-defaulting source (or the fake) delivers this object"
 	}
-	return &Input{Class: class, Op: "deliver-" + d.kind, Show: show, data: d}
+	in := &Input{Class: class, Op: "deliver-" + d.kind, Show: show, data: d}
+	if f := genFault(g, 0.12); f != nil {
+		in.Fault = f
+		show["api_fault"] = f
+	}
+	return in
 }
 
 func show_(s string) string { return show(s) }
@@ -296,12 +301,14 @@ func (s *surf3) call(in *Input) (string, string) {
 		cleanup := func() {
 			if !cleaned {
 				cleaned = true
+				e.fault.disarm()
 				_ = e.gcli.GalaxyV1alpha1().FloatingIPs().Delete(ctx, f.Name, metav1.DeleteOptions{})
 				e.fipBarrier()
 			}
 		}
 		defer cleanup()
 		e.fipBarrier()
+		e.fault.arm(in.Fault)
 		_, err1 := ipam.ByIP(net.ParseIP(f.Name))
 		_, err2 := ipam.ByPrefix("")
 		_, err3 := ipam.ByKeyword(f.Spec.Key)
@@ -314,6 +321,7 @@ func (s *surf3) call(in *Input) (string, string) {
 		e.plugin.VerifSyncPodIPs()
 		cleanup()
 		err7 := s.reloadConfig()
+		e.fault.disarm()
 		return classifyErr(firstErr(err1, err2, err3, err4, err5, err6, err7))
 	case "fip-at-init":
 		var objs []runtime.Object
@@ -325,11 +333,14 @@ func (s *surf3) call(in *Input) (string, string) {
 			return outEnv, err.Error()
 		}
 		defer e2.close()
+		e2.fault.arm(in.Fault)
 		err1 := e2.plugin.Init()
 		_, err2 := e2.plugin.GetIpam().ByPrefix("")
 		e2.serve(buildRequest(&httpIn{method: "GET", path: "/v1/ip", rawQuery: "size=9999"}))
 		err3 := e2.plugin.VerifResyncOnce()
 		e2.plugin.VerifSyncPodIPs()
+		e2.fault.disarm()
+		e2.flushFaultCounters(s.c)
 		e2.probe(nil, func(string) {})
 		return classifyErr(firstErr(err1, err2, err3))
 	case "pool":
@@ -338,11 +349,13 @@ func (s *surf3) call(in *Input) (string, string) {
 			return outEnv, err.Error()
 		}
 		defer func() {
+			e.fault.disarm()
 			_ = e.gcli.GalaxyV1alpha1().Pools(p.Namespace).Delete(ctx, p.Name, metav1.DeleteOptions{})
 			waitFor(func() bool { _, err := e.ctx.PoolLister.Pools(p.Namespace).Get(p.Name); return err != nil })
 			s.releasePrefix("pool__")
 		}()
 		waitFor(func() bool { _, err := e.ctx.PoolLister.Pools(p.Namespace).Get(p.Name); return err == nil })
+		e.fault.arm(in.Fault)
 		_, _, err1 := e.plugin.Filter(d.pod, e.nodes[:5])
 		c1 := e.serve(buildRequest(&httpIn{method: "GET", path: "/v1/pool/" + p.Name})).Code
 		body := fmt.Sprintf(`{"name":%q,"size":%d,"preAllocateIP":%v}`, p.Name, d.postSize, !p.PreAllocateIP)
@@ -359,6 +372,7 @@ func (s *surf3) call(in *Input) (string, string) {
 			return outEnv, err.Error()
 		}
 		defer func() {
+			e.fault.disarm()
 			_ = e.kube.AppsV1().Deployments(dp.Namespace).Delete(ctx, dp.Name, metav1.DeleteOptions{})
 			waitFor(func() bool {
 				_, err := e.ctx.DeploymentLister.Deployments(dp.Namespace).Get(dp.Name)
@@ -374,6 +388,7 @@ func (s *surf3) call(in *Input) (string, string) {
 		if ko, err := util.FormatKey(d.pod); err == nil && ko.PoolName == "" {
 			_ = ipam.AllocateSpecificIP(ko.KeyInDB, net.ParseIP("10.0.70.15"), floatingip.Attr{Policy: constant.ConvertReleasePolicy(d.policy)})
 		}
+		e.fault.arm(in.Fault)
 		_, _, err1 := e.plugin.Filter(d.pod, e.nodes[:5])
 		err2 := e.plugin.VerifUnbind(d.pod)
 		err3 := e.plugin.VerifResyncOnce()
@@ -384,6 +399,7 @@ func (s *surf3) call(in *Input) (string, string) {
 			return outEnv, err.Error()
 		}
 		defer func() {
+			e.fault.disarm()
 			_ = e.kube.AppsV1().StatefulSets(st.Namespace).Delete(ctx, st.Name, metav1.DeleteOptions{})
 			waitFor(func() bool {
 				_, err := e.ctx.StatefulSetLister.StatefulSets(st.Namespace).Get(st.Name)
@@ -398,6 +414,7 @@ func (s *surf3) call(in *Input) (string, string) {
 		if ko, err := util.FormatKey(d.pod); err == nil {
 			_ = ipam.AllocateSpecificIP(ko.KeyInDB, net.ParseIP("10.0.70.16"), floatingip.Attr{Policy: constant.ConvertReleasePolicy(d.policy)})
 		}
+		e.fault.arm(in.Fault)
 		_, _, err1 := e.plugin.Filter(d.pod, e.nodes[:5])
 		err2 := e.plugin.VerifUnbind(d.pod)
 		err3 := e.plugin.VerifResyncOnce()
@@ -408,6 +425,7 @@ func (s *surf3) call(in *Input) (string, string) {
 			return outEnv, err.Error()
 		}
 		defer func() {
+			e.fault.disarm()
 			_ = e.ext.ApiextensionsV1().CustomResourceDefinitions().Delete(ctx, crd.Name, metav1.DeleteOptions{})
 			waitFor(func() bool { _, err := e.ctx.ExtensionLister.Get(crd.Name); return err != nil })
 			if d.cr != nil {
@@ -425,6 +443,7 @@ func (s *surf3) call(in *Input) (string, string) {
 		if kerr == nil {
 			_ = ipam.AllocateSpecificIP(ko.KeyInDB, net.ParseIP("10.0.70.17"), floatingip.Attr{Policy: constant.ConvertReleasePolicy(d.policy)})
 		}
+		e.fault.arm(in.Fault)
 		// a pod of a kind galaxy has not seen yet makes it walk every CRD in its lister
 		if d.replicasFirst && kerr == nil {
 			_, _, _ = e.plugin.VerifAppReplicas(ko)
@@ -469,6 +488,8 @@ func (s *surf3) releasePrefix(prefix string) {
 }
 
 func (s *surf3) probe(in *Input, step func(string)) {
+	s.e.fault.disarm()
+	s.e.flushFaultCounters(s.c)
 	d := in.data.(*objIn)
 	s.e.probe(d.pod, step)
 }
